@@ -13,23 +13,44 @@ pub fn enum_load(_s: u64) -> Vec<String> {
         vec!["l([a, b | $T]) :- m($T)."],
         vec!["city(Zürich).", "mild($C) :- temperature($C, $T), $T > 10.5, sunny($C).", "temperature(Zürich, 17.5)."],
         vec!["π(3.14159).", "big($X) :- $X > 2.5."],
+        vec!["p($X) :- $X = 5.", "q(a)."],
+        vec!["dec($X, $Y) :- $Y = $X - 1.", "same($X) :- $X == 5, q($X)."],
+        vec!["r($X) :- q($X), $X <= 2.5; s($X).", "t([a, b], f(c, d))."],
     ];
     let mut out = vec![];
     for p in &progs {
         out.push(format!("{}", p.join("\u{1}")));                      // one rule per line
         out.push(format!("{}\u{2}", p.join("\u{1}")));                 // all rules on one line
+        out.push(format!("{}\u{3}", p.join("\u{1}")));                 // a line break (and indentation) after every - , ; = that is followed by a space
     }
     out
 }
 
 pub fn check_load(case: &str) -> Result<(), String> {
     let one_line = case.ends_with('\u{2}');
-    let body = case.trim_end_matches('\u{2}');
+    let broken = case.ends_with('\u{3}');
+    let body = case.trim_end_matches('\u{2}').trim_end_matches('\u{3}');
     let rules: Vec<&str> = body.split('\u{1}').collect();
     // expected: each rule parsed with the rule parser
     let mut expected = vec![];
     for r in &rules { match parse_rule(r) { Ok(x) => expected.push(format!("{}", x)), Err(e) => return Err(format!("generator produced an unparsable rule {}: {}", r, e)) } }
-    let text = if one_line { rules.join(" ") } else { rules.join("\n") };
+    let text = if one_line { rules.join(" ") }
+        else if broken {
+            // the documented continuation characters: a line may end in - , ; = (and the rule goes on in the next line)
+            let mut t = String::new();
+            for r in &rules {
+                let cs: Vec<char> = r.chars().collect();
+                let mut k = 0;
+                while k < cs.len() {
+                    t.push(cs[k]);
+                    if "-,;=".contains(cs[k]) && k + 1 < cs.len() && cs[k + 1] == ' ' { t.push_str("\n   "); k += 1; }
+                    k += 1;
+                }
+                t.push_str("\n\n# a comment line\n");
+            }
+            t
+        }
+        else { rules.join("\n") };
     let path = std::env::temp_dir().join(format!("verif_c21_{}.txt", std::process::id()));
     { let mut f = std::fs::File::create(&path).map_err(|e| e.to_string())?; f.write_all(text.as_bytes()).map_err(|e| e.to_string())?; f.write_all(b"\n").ok(); }
     let got = read_facts_and_rules(path.to_str().unwrap());
